@@ -88,7 +88,7 @@ def gen_case(seed: int, tier: str, index: int) -> Dict[str, Any]:
     for _ in range(n):
         start, length = _draw_range(rng)
         plan.append({"op": "transfer", "start": start, "length": length,
-                     "block": rng.choice(["random", "random", "zeros", "ff", "mutsnap"]),
+                     "block": rng.choice(["random", "random", "zeros", "ff", "mutsnap", "markup"]),
                      "bseed": rng.getrandbits(32), "retries": rng.choice([10, 10, 5, 3, 2, 1])})
     if rng.random() < 0.3:
         # two callers fetch different ranges of the same connection at (almost) the same time: segments carry no request identity, so
@@ -120,6 +120,15 @@ def make_block(kind: str, bseed: int, old: bytes, snap: bytes) -> bytes:
         b = bytearray(snap)
         for _ in range(64):
             b[rng.randrange(1024)] = rng.randrange(256)
+    elif kind == "markup":
+        # binary data that happens to contain the packet framing's own tags, line ends, blanks and NULs at drawn places
+        b = bytearray(rng.getrandbits(8) for _ in range(1024))
+        frags = [b"</DATAS>", b"</PACKT>", b"<PACKT>", b"</SRCCN><DESCN>", b"</DESCN><DATAS>", b"<DATAS>", b"</DATAS></PACKT>", b"\n", b"\r\n", b" ", b"\x00\x00",
+                 b"</SRCCN><DESCN>x</DESCN><DATAS>", b"<HELLO>", b"STATV"]
+        for _ in range(rng.randint(4, 30)):
+            f = rng.choice(frags)
+            at = rng.randrange(0, 1024 - len(f))
+            b[at:at + len(f)] = f
     else:
         b = bytearray(rng.getrandbits(8) for _ in range(1024))
     if kind in ("random", "mutsnap"):
